@@ -281,7 +281,7 @@ func runC17Core(c *Ctx, withBackoff bool) {
 	// R3: per-endpoint gating
 	pf := w.Facts(per)
 	var rpcErr, parseErr ssa.Value
-	for _, call := range callsIn(per) {
+	for _, call := range w.callsInDeep(per) {
 		cv, ok := call.(*ssa.Call)
 		if !ok {
 			continue
@@ -315,6 +315,24 @@ func runC17Core(c *Ctx, withBackoff bool) {
 			n++
 			a, ka := pf.KnownNil(r.Block(), rpcErr)
 			b, kb := pf.KnownNil(r.Block(), parseErr)
+			if !(ka && a && kb && b) {
+				// the error returned is a helper's: every value of it that may be nil comes with both facts
+				all, some := true, false
+				for _, lf := range w.LeavesErr(r.Results[errorResultIndex(per)], r) {
+					if w.NonNil(lf.Val, lf.Facts) {
+						continue
+					}
+					some = true
+					a2, ka2 := pf.knownNilIn(lf.Facts, rpcErr)
+					b2, kb2 := pf.knownNilIn(lf.Facts, parseErr)
+					if !((ka2 && a2) || (ka && a)) || !((kb2 && b2) || (kb && b)) {
+						all = false
+					}
+				}
+				if all && some {
+					ka, a, kb, b = true, true, true, true
+				}
+			}
 			c.Check(ka && a && kb && b, "R3.gate", shortFn(per)+"|nil error only after RPC and parse success", w.Pos(r.Pos()),
 				"must-facts: RPC err == nil and parse err == nil", "a possibly-nil error is returned on a path where the RPC error or the parse error is not known to be nil")
 		}
@@ -324,7 +342,7 @@ func runC17Core(c *Ctx, withBackoff bool) {
 		c.Saw(gp)
 		// appends to result 0 and result 1 cells happen in the same block
 		var appendBlocks []*ssa.BasicBlock
-		for _, call := range callsIn(gp) {
+		for _, call := range w.callsInDeep(gp) {
 			if b, ok := call.Common().Value.(*ssa.Builtin); ok && b.Name() == "append" {
 				appendBlocks = append(appendBlocks, call.Block())
 			}
@@ -332,6 +350,7 @@ func runC17Core(c *Ctx, withBackoff bool) {
 		okPar := len(appendBlocks) == 2 && appendBlocks[0] == appendBlocks[1]
 		c.Check(okPar, "R3.gate", "GetPublicKeysFromBytes|key and comment appended together", w.FnPos(gp), "both appends in one block (parallel slices)", "keys and comments are not appended in the same block: the slices can get out of step")
 		gf := w.Facts(gp)
+		gbc := &boundsCtx{w: w, fn: gp, root: gp, facts: gf}
 		for _, r := range w.MayBeNilReturns(gp) {
 			// fact len(keys)==0 is false
 			ok := gf.Any(r.Block(), func(l Lit) bool {
@@ -339,7 +358,7 @@ func runC17Core(c *Ctx, withBackoff bool) {
 				if !isBin {
 					return false
 				}
-				if la := lenArg(bin.X); la != nil && la == r.Results[0] {
+				if la := lenArg(bin.X); la != nil && (la == r.Results[0] || gbc.sameSeq(la, r.Results[0])) {
 					if k, isK := intConst(bin.Y); isK && k == 0 {
 						return (bin.Op == token.EQL && !l.Pol) || (bin.Op == token.NEQ && l.Pol) || (bin.Op == token.GTR && l.Pol)
 					}
@@ -376,6 +395,43 @@ func runC17Core(c *Ctx, withBackoff bool) {
 				src := findIndexOn(st.Val, "CrypkiEndpoints", w, 0)
 				if src != nil && src.Index == ia.Index {
 					okCtor = true
+				}
+			}
+		}
+		// ... or appended one by one, in the order of a forward range over the configured list, to a list that starts
+		// empty - every element, unconditionally
+		if !okCtor {
+			for _, b := range ctorBlocks {
+				for _, ins := range b.Instrs {
+					cv, ok := ins.(*ssa.Call)
+					if !ok {
+						continue
+					}
+					base, vals, ok := appendedValues(cv)
+					if !ok || len(vals) != 1 {
+						continue
+					}
+					src := findIndexOn(vals[0], "CrypkiEndpoints", w, 0)
+					if src == nil || !isForwardRangeIndex(src.Index) || src.Block() != cv.Block() {
+						continue
+					}
+					// the list appended to is the loop-carried one that starts empty and is what the loop hands on
+					phi, isPhi := throughCell(strip(base)).(*ssa.Phi)
+					if !isPhi || len(phi.Edges) != 2 {
+						continue
+					}
+					startsEmpty, carried := false, false
+					for _, e := range phi.Edges {
+						e = throughCell(strip(e))
+						if e == ssa.Value(cv) {
+							carried = true
+						} else if emptySlice(e) || isNilConst(e) {
+							startsEmpty = true
+						}
+					}
+					if startsEmpty && carried {
+						okCtor = true
+					}
 				}
 			}
 		}
